@@ -16,6 +16,7 @@ def prog(root, **datasets):
 
 def programs():
     out = []
+    K = lambda spec: {"k": "cached", "spec": spec}  # noqa: E731
 
     def add(name, p):
         p = copy.deepcopy(p)
@@ -83,6 +84,32 @@ def programs():
                                                      ["t", {"k": "tuple", "items": [O("C", dk="const", dv="c"), DS(1)]}],
                                                      ["s", {"k": "set", "items": [O("D", dk="const", dv="x"), O("E", dk="const", dv="y"), C("x")]}]]},
                             d1={"args": []}))
+    # Map whose body's requirements depend on the mapped option (a later element needs another option)
+    add("map-switch-on-mapped-key", prog({"k": "apply", "src": {"k": "map", "body": {"k": "switch", "disp": "D", "table": [["x", O("A")], ["y", O("B")], ["z", O("S.X", dk="const", dv="sx")]]},
+                                                                 "iters": [["D", O("L", dk="const", dv=["x", "y"])]], "values": True}, "fn": "f1", "n": 1}))
+    add("map-switch-on-mapped-key-ds", prog(DS(1), d1={"args": [["m", {"k": "apply", "src": {"k": "map", "body": {"k": "switch", "disp": "D", "table": [["x", O("A")], ["y", O("B")]]},
+                                                                                            "iters": [["D", C(["x", "y"])]]}, "fn": "f1", "n": 1}]], "cache": "nocache"}))
+    # pre-set section and caller section overlapping two levels deep (whole-section read)
+    add("with-deep-section", prog(K({"k": "with", "spec": O("S"), "P": {"S": {"X": {"P": 1}}}, "force": True})))
+    add("with-deep-section-ds", prog(DS(1), d1={"args": [["s", O("S", dk="const", dv=None)]], "options": {"S": {"X": {"P": 1}, "Y": 0}}}))
+    add("derive-deep-section", prog({"k": "tuple", "items": [DS(1, P={"S": {"X": {"P": 1}}}), DS(1)]}, d1={"args": [["s", O("S", dk="const", dv=None)]]}))
+    # datasets created through one reused configured decorator, reading the same options
+    add("shared-factory", prog({"k": "tuple", "items": [DS(1), DS(2), DS(3)]},
+                               d1={"args": [["a", O("A", dk="const", dv=0)]], "cache": "factory"},
+                               d2={"args": [["a", O("A", dk="const", dv=0)]], "cache": "factory", "callback": "c1"},
+                               d3={"args": [["a", O("A", dk="const", dv=0)]], "cache": "factory", "dispatch": "D", "overloads": [["x", {"args": []}]]}))
+    # a coalesce argument of a memoised dataset whose LATER members need a dataset to choose a branch
+    add("coalesce-later-member-selector",
+        prog(DS(2), d1={"args": [["e", O("E", dk="const", dv="x")]]},
+             d2={"args": [["c", {"k": "coalesce", "members": [O("A"),
+                                                               {"k": "switch", "disp": {"k": "apply", "src": DS(1), "fn": "tostr", "n": 1}, "table": [["k", C("sw")]], "default": C("sw-default")},
+                                                               {"k": "case", "disp": DS(1), "cases": [["always", C("case")]], "n": 2},
+                                                               {"k": "bind", "src": DS(1), "table": [], "else": C("bind"), "n": 3}]}]]}))
+    # a cached node whose value is None (falsy values must be stored and served like any other)
+    add("none-valued", prog({"k": "tuple", "items": [DS(2), DS(1), DS(3)]},
+                            d1={"expr": C(None), "form": "explicit", "effects": ["e"]},
+                            d2={"args": [["x", DS(1)], ["y", DS(1)], ["a", O("A", dk="const", dv=0)]]},
+                            d3={"expr": O("B", dk="const", dv=None), "form": "explicit", "effects": ["e", "e"], "callback": None}))
     # 7 sharing / diamonds / nocache
     add("diamond", prog(DS(4), d1={"args": [["a", O("A", dk="const", dv=0)]], "effects": ["e"]},
                         d2={"args": [["x", DS(1)], ["b", O("B", dk="const", dv=0)]]},
@@ -104,7 +131,6 @@ def programs():
     add("domain", prog({"k": "coalesce", "members": [O("A", dom=["container", [0, 1, 2]]), O("B", dk="const", dv=1, dom=["pred", "is_int"], n=2), C("out")]}))
     # 12 every combinator directly under a cache, branches with identical key sets, so that a
     #    key set that omits the selecting child conflates two dictionaries
-    K = lambda spec: {"k": "cached", "spec": spec}  # noqa: E731
     add("uc-bind", prog(K({"k": "bind", "src": O("A", dk="const", dv=0), "table": [[0, C("zero")], [1, C("one")]], "else": C("other"), "n": 1})))
     add("uc-case", prog(K({"k": "case", "disp": O("A", dk="const", dv=None), "cases": [["isnone", C("n")], ["truthy", C("t")]], "default": C("f"), "n": 1})))
     add("uc-switch", prog(K({"k": "switch", "disp": "D", "table": [["x", C(1)], ["y", C(2)]], "default": C(3)})))
@@ -144,6 +170,14 @@ def dictionaries():
         {"S": {"X": 1, "Y": 3}},
         {"S": {"Y": 2}},
         {"S": {}},
+        {"S": {"X": {"Q": 2}, "Y": 5}},
+        {"S": {"X": {"Q": 3}, "Y": 5}},
+        {"S": {"X": {"Q": 2, "P": 7}, "Y": 5}},
+        {"S": {"X": {}, "Y": 5}},
+        {"L": ["y", "x"], "A": 1},
+        {"L": ["x", "y"], "A": 1},
+        {"L": ["x", "y"], "A": 1, "B": 2},
+        {"L": ["x"], "A": 1},
         {"D": "x"},
         {"D": "y"},
         {"D": "z"},
